@@ -199,10 +199,10 @@ pub fn def_b() -> CheckDef {
         id: "C05b",
         title: "Client actions: at-most-once effect among racing client threads (layer 2)",
         case: case_b,
-        rule: "case = a small model with an open interrupt (optionally with declared outputs, followed by another act / step / nothing) x 2..8 virtual client threads that all issue the same action (complete / submit / skip / abort / error / remove) on that act x preemption probability at engine lock points in {1%, 10%, 50%} x seeded choice of the thread that gets the baton; the executor runs as one more virtual thread. Over the invoke/return history: exactly one call returns Ok; after quiescence the successor has exactly one task instance and the act has exactly one terminal message. non-trivial = at least two client threads were inside their call at the same time (a baton switch happened between an invoke and its return); distinct = distinct (scenario hash, schedule hash)",
+        rule: "case = a small model with an open interrupt (optionally with declared outputs, followed by another act / step / nothing) x 2..8 virtual client threads that all issue the same action (complete / submit / skip / abort / error / remove) on that act - or, in a third of the cases, each its own closing action x preemption probability at engine lock points in {1%, 10%, 50%} x seeded choice of the thread that gets the baton; the executor runs as one more virtual thread. Over the invoke/return history: exactly one call returns Ok; after quiescence the successor has exactly one task instance and the act has exactly one terminal message. non-trivial = at least two client threads were inside their call at the same time (a baton switch happened between an invoke and its return); distinct = distinct (scenario hash, schedule hash)",
         level: "exploration",
         assumptions: &["preemption happens at engine lock acquisitions (all shared engine state is behind these locks)", "virtual threads are real OS threads released one at a time; the interleaving is the decision trace", "monotone simulated clock"],
-        probes: &["probe.overlapping_calls", "probe.forced_switch", "probe.eight_threads", "probe.action_complete", "probe.action_other"],
+        probes: &["probe.overlapping_calls", "probe.forced_switch", "probe.eight_threads", "probe.action_complete", "probe.action_other", "probe.threads_with_different_actions"],
         quick_cases: 2000,
         no_shrink: &[],
     }
@@ -218,6 +218,9 @@ pub fn case_b(ctx: &mut CaseCtx) -> CaseOut {
     // outputs, which drops `ecode`): not a race subject
     let with_outputs = gr.below(3) == 0 && action != "error";
     let tail = gr.below(3);
+    // a third of the cases: every thread closes the act in its own way (complete / submit / skip / abort / remove) -
+    // still exactly one of them can win
+    let mixed: Vec<String> = if gr.below(3) == 0 && action != "error" { (0..m_threads).map(|_| gr.pick(&["complete", "submit", "skip", "abort", "remove"]).to_string()).collect() } else { vec![] };
     let sc = ctx.scenario(|_| {
         let mut sc = Scenario::default();
         let mut a1 = MAct { id: "a1".into(), key: "k1".into(), kind: ActKind::Irq, ..Default::default() };
@@ -239,6 +242,10 @@ pub fn case_b(ctx: &mut CaseCtx) -> CaseOut {
         sc
     });
     let act = action.clone();
+    let mixed2 = mixed.clone();
+    if !mixed.is_empty() {
+        ctx.count("probe.threads_with_different_actions", 1);
+    }
     let stats: std::sync::Arc<std::sync::Mutex<(u64, u64, u64, Option<String>, bool)>> = Default::default();
     let stats2 = stats.clone();
     let rec = ctx.run_with(&sc, move |w| {
@@ -271,7 +278,8 @@ pub fn case_b(ctx: &mut CaseCtx) -> CaseOut {
         for i in 0..m_threads {
             let engine = w.engine().clone();
             let rec = w.rec.clone();
-            let (pid, tid, key, act, opts) = (oa.pid.clone(), oa.tid.clone(), oa.key.clone(), act.clone(), opts.clone());
+            let act = mixed2.get(i).cloned().unwrap_or_else(|| act.clone());
+            let (pid, tid, key, act, opts) = (oa.pid.clone(), oa.tid.clone(), oa.key.clone(), act, opts.clone());
             let epoch = w.epoch;
             hs.push(vsim::vthread::spawn(&format!("client{}", i), move || {
                 vsim::set_epoch(epoch);
